@@ -200,20 +200,15 @@ theorem post_finishCall {st : St} (hI : Inv st) (f : FuncVal) (args : List Obj) 
     (hres : okObj st.frames.size res = true) (output : List UInt8) :
     Post (finishCall f args curState before after cantCache res output) st OkO := by
   unfold finishCall
-  extract_lets jp2 jp
-  have hjp2 : ∀ s', Inv s' → st.frames.size ≤ s'.frames.size → Post (jp2 ()) s' OkO := by
-    intro s' hIs' hle'
-    unfold jp2
-    exact Post.pure hIs' (okObj_mono hle' _ hres)
+  extract_lets _x jp
   have hjp : ∀ s', Inv s' → st.frames.size ≤ s'.frames.size → Post (jp ()) s' OkO := by
     intro s' hIs' hle'
     have hres' : okObj s'.frames.size res = true := okObj_mono hle' _ hres
     unfold jp
     refine Post.ite (fun _ => ?_) (fun _ => ?_)
-    · refine Post.ite (fun _ => ?_) (fun _ => hjp2 s' hIs' hle')
-      refine Post.bind (post_triggerNoCache hIs' (by omega)) ?_
+    · refine Post.bind (post_triggerNoCache hIs' (by omega)) ?_
       intro _ s'' hIs'' hle'' _
-      exact hjp2 s'' hIs'' (by omega)
+      exact Post.pure hIs'' (okObj_mono hle'' _ hres')
     · refine Post.ite (fun _ => Post.pure hIs' hres') (fun _ => ?_)
       refine Post.bind (post_cacheSet hIs' f.key args hres' output) ?_
       intro _ s'' hIs'' hle'' _
